@@ -17,7 +17,6 @@ class FFTPricer:
         :param model: Lévy model
         """
         self.cf = model.log_characteristic_function
-        self.r = model.r
         self.model = model
 
         self.alpha = 1.5
@@ -26,6 +25,11 @@ class FFTPricer:
 
         self.l = 2 * np.pi / (self.N * self.eta)
         self.b = -model.x0_value() + np.pi / self.eta
+
+    @property
+    def r(self) -> float:
+        """interest rate of the model (read at each valuation: the model's rate can be reassigned)"""
+        return self.model.r
 
     def _sufficient_condition(self, t: float) -> None:
         moment = self.cf(t=t, x=-1j * (1 + self.alpha))
